@@ -57,6 +57,7 @@ fn dummy_actor() -> SA {
         log: vec!["x".into()],
         seq: 0,
         run_inv: 0,
+        run_evals: 0,
     }
 }
 
